@@ -8,7 +8,7 @@ mkdir -p $d/src
 rsync -a --exclude '__pycache__' /repo/src/ $d/src/
 ( cd $d && git init -q . >/dev/null 2>&1; patch -p1 -s < "$patch" ) || { echo "PATCH FAILED"; rm -rf $d; exit 3; }
 cd /verif
-VERIF_EVIDENCE_DIR=$d/ev VERIF_REPO=$d ./vcheck $id "$@" | tail -12
+VERIF_EVIDENCE_DIR=$d/ev VERIF_REPO=$d ./vcheck $id "$@" | tail -${MUT_TAIL:-12}
 rc=${PIPESTATUS[0]}
 rm -rf $d
 echo "mutant rc=$rc"
